@@ -59,6 +59,18 @@ COMP = {
     "BaSO4(s)": {56: 1, 16: 1, 8: 4},
     "KNO3(s)": {19: 1, 7: 1, 8: 3},
     "CaF2(s)": {20: 1, 9: 2},
+    # average / empirical formulas with non-integer (dyadic decimal) counts, exact as Fractions; chempy's parser returns
+    # the same numbers as float64 (2.5, 0.125, ... are exactly representable).  Used by the C07 pool BASE_FRAC only
+    "CH2.5O": {6: 1, 1: F(5, 2), 8: 1},
+    "C2H5O2": {6: 2, 1: 5, 8: 2},
+    "CH3.5O+": {6: 1, 1: F(7, 2), 8: 1, 0: 1},
+    "C0.25H0.5": {6: F(1, 4), 1: F(1, 2)},
+    "CH2": {6: 1, 1: 2},
+    "N0.75H2.25": {7: F(3, 4), 1: F(9, 4)},
+    "N0.25H0.75": {7: F(1, 4), 1: F(3, 4)},
+    "S0.125O0.375": {16: F(1, 8), 8: F(3, 8)},
+    "SO3": {16: 1, 8: 3},
+    "N0.5H1.5": {7: F(1, 2), 1: F(3, 2)},
 }
 ORDER = list(COMP)                        # canonical species order
 SPECTATORS = ["Na+", "Cl-", "K+", "NO3-"]
@@ -86,6 +98,20 @@ BASE = [
     ("AgNH3_2", {"Ag(NH3)+": 1, "NH3": 1}, {"Ag(NH3)2+": 1}, 3.91),
 ]
 NBASE = len(BASE)
+
+# C07 only: equilibria over species with non-integer formula counts (.5, .25, .75, .125, .375); again every reaction
+# introduces a species of its own, so BASE + BASE_FRAC stays linearly independent.  Some share H+, NH3, Cu+2, Cu(NH3)+2
+# with BASE (coupling).  The constants are placeholders (C07 defines K := Q(c_eq)).
+BASE_FRAC = [
+    ("dimer_half", {"CH2.5O": 2}, {"C2H5O2": 1}, 0.3),
+    ("protonation_half", {"CH2.5O": 1, "H+": 1}, {"CH3.5O+": 1}, 2.0),
+    ("tetramer_quarter", {"C0.25H0.5": 4}, {"CH2": 1}, 1.0),
+    ("NH3_three_quarters", {"N0.75H2.25": 1, "N0.25H0.75": 1}, {"NH3": 1}, 1.5),
+    ("SO3_eighths", {"S0.125O0.375": 8}, {"SO3": 1}, 0.5),
+    ("CuNH3_halves", {"Cu+2": 1, "N0.5H1.5": 2}, {"Cu(NH3)+2": 1}, 4.0),
+]
+POOL07 = BASE + BASE_FRAC
+NPOOL07 = len(POOL07)
 
 # single salts  solid = cation + n anion
 SALTS = [
@@ -135,7 +161,7 @@ def is_balanced(net):
     return all(sum(COMP[s].get(k, 0) * n for s, n in net.items()) == 0 for k in ks)
 
 
-for _tag, _r, _p, _lk in BASE:
+for _tag, _r, _p, _lk in POOL07:
     assert is_balanced(net_of(_r, _p)), _tag
 for _s, _m, _x, _n in SALTS:
     assert is_balanced(net_of({_s: 1}, {_m: 1, _x: _n})), _s
@@ -242,6 +268,10 @@ class Model07(object):
     def charged(self):
         return any(COMP[s].get(0, 0) != 0 for n in self.nets for s in n)
 
+    def fractional(self):
+        """Species with a non-integer formula count (chempy then carries float64 composition entries)."""
+        return [s for s in self.species if any(F(v).denominator != 1 for v in COMP[s].values())]
+
     def n_equations(self, rref_equil, rref_preserv):
         return (self.rank_N if rref_equil else self.nr) + (self.rank_B if rref_preserv else len(self.keys))
 
@@ -249,7 +279,7 @@ class Model07(object):
 @st.composite
 def c07_cases(draw, max_base=3, max_rxn=4, max_spect=2):
     nb = draw(st.integers(1, max_base))
-    base = draw(st.lists(st.integers(0, NBASE - 1), min_size=nb, max_size=nb, unique=True))
+    base = draw(st.lists(st.integers(0, NPOOL07 - 1), min_size=nb, max_size=nb, unique=True))
     nr = draw(st.integers(1, max_rxn))
     # drawn early (Hypothesis simplifies the tail of long draw sequences); indices are taken modulo nr / ns by the check
     pert = {
@@ -257,6 +287,7 @@ def c07_cases(draw, max_base=3, max_rxn=4, max_spect=2):
         "init_sp": draw(st.integers(0, 11)), "init_shift": draw(st.sampled_from(INIT_SHIFTS)),
         "state_sp": draw(st.integers(0, 11)), "state_fac": draw(st.sampled_from(STATE_FACTORS)),
         "dir_idx": draw(st.integers(0, nr - 1)), "dir_frac": draw(st.sampled_from(DIR_FRACS)),
+        "n_states": draw(st.sampled_from([3, 2, 4])),      # rows of the 2-D batch handed to equilibrium_quotients
     }
     xi = [draw(st.sampled_from(XI_FRACS)) for _ in range(nr)]
     rxns = []
@@ -270,14 +301,14 @@ def c07_cases(draw, max_base=3, max_rxn=4, max_spect=2):
         seen.add(tuple(m))
         net = {}
         for mult, bi in zip(m, base):
-            for s, n in net_of(BASE[bi][1], BASE[bi][2]).items():
+            for s, n in net_of(POOL07[bi][1], POOL07[bi][2]).items():
                 net[s] = net.get(s, 0) + mult * n
         net = {s: n for s, n in net.items() if n != 0}
         rxns.append({"reac": {s: -n for s, n in net.items() if n < 0}, "prod": {s: n for s, n in net.items() if n > 0}})
     used = set()
     for bi in base:
-        used.update(BASE[bi][1])
-        used.update(BASE[bi][2])
+        used.update(POOL07[bi][1])
+        used.update(POOL07[bi][2])
     nsp = draw(st.integers(0, max_spect))
     spect = draw(st.lists(st.sampled_from(SPECTATORS), min_size=nsp, max_size=nsp, unique=True)) if nsp else []
     species = [s for s in ORDER if s in used] + [s for s in SPECTATORS if s in spect]
